@@ -60,7 +60,7 @@ pub struct CmpTables {
 /// findings go to `rep` under `prefix`. Returns the struct-role tables.
 pub fn cmp_models(cx: &Cx, rep: &mut Report, traits: &[usize], prefix: &str, report_structure: bool) -> CmpTables {
     crate::misc::attr_fields_rule(cx, rep);
-    crate::misc::span_hygiene_rule(cx, rep);
+    crate::misc::span_hygiene_rule(cx, rep, &["CompareOp"]);
     crate::misc::mentions_param_rule(cx, rep);
     crate::misc::wcb_rule(cx, rep);
     let mut scratch = Report::new(&rep.prop, &rep.tier, &cx.verif);
